@@ -350,6 +350,22 @@ func VerifRefs(kv map[string]string) string {
 		case "dos":
 			subject.Annotations[configs.AppProtectDosProtectedAnnotation] = dosRef("prot")
 		}
+		// ctx: the Ingress claims two hosts; a rival Ingress (greater UID at equal creation time, so it wins) holds the
+		// first (losefirst) or the second (loselast) of them; the subject is still served for the other host and still
+		// depends on everything it names
+		if ctx := kv["ctx"]; ctx != "" && kind == "ing" {
+			second := subject.Spec.Rules[0].DeepCopy()
+			second.Host = "b.ex"
+			subject.Spec.Rules = append(subject.Spec.Rules, *second)
+			if ctx == "losefirst" || ctx == "loselast" {
+				rival := mk("zz", "")
+				rival.UID = types.UID("u-zz")
+				if ctx == "loselast" {
+					rival.Spec.Rules[0].Host = "b.ex"
+				}
+				_, _ = cfg.AddOrUpdateIngress(rival)
+			}
+		}
 		if master != nil {
 			_, _ = cfg.AddOrUpdateIngress(master)
 		}
@@ -361,7 +377,7 @@ func VerifRefs(kv map[string]string) string {
 		}
 		var ic *IngressConfiguration
 		for _, r := range cfg.GetResources() {
-			if c, ok := r.(*IngressConfiguration); ok {
+			if c, ok := r.(*IngressConfiguration); ok && c.Ingress.Name != "zz" {
 				target = r
 				ic = c
 			}
